@@ -59,6 +59,15 @@ def locations(level):
     if full:
         L.append(("ADD", ("ADD", ("keccak1", K1), X), K1))  # a[i].f  (re-associated below)
         L.append(("ADD", ("keccak1", K1), ("ADD", X, K1)))
+    # nested dynamic array a[i][j] at slot 2 (no mapping lives at slot 2 and no nested array at slots 0/1: one Solidity variable per slot);
+    # under the generic layout its key structure collides with m[k] at slot 1 exactly when k == 2, i == 1, j == 0
+    L.append(("ADD", ("keccak1", ("ADD", ("keccak1", K2), Y)), K0))
+    if full:
+        L.append(("ADD", ("keccak1", ("ADD", ("keccak1", K2), X)), Y))
+    # a[n-1] written the way the optimiser emits it: (keccak(slot) - 1) + n
+    L.append(("ADD", ("k32", (KECCAK1[1] - 1) % 2**256), X))
+    if full:
+        L.append(("ADD", ("k32", (KECCAK2[(1, 1)] - 1) % 2**256), K1))
     # packed-key mapping (|k| = 160)
     L.append(("keccakp", X, K1))
     if full:
